@@ -61,8 +61,8 @@ fn judge(text: &str) -> Option<(String, String)> {
         (Got::Err(loc), Err(o)) => {
             let lo = boff(&s, o);
             match loc {
-                Some((a, b)) if a == b && lo <= a && a <= lo + 2 => None,
-                other => Some(("strip|preprocess|ensures|2".into(), format!("unterminated-comment label {:?} is not the byte position of the opener ({}..={})", other, lo, lo + 2))),
+                Some((a, b)) if a == lo && b == lo + 2 => None,
+                other => Some(("strip|preprocess|ensures|2".into(), format!("unterminated-comment label {:?} is not the opener `/*` ({}..{})", other, lo, lo + 2))),
             }
         }
     }
